@@ -22,6 +22,7 @@ pub const T_CNAME: u16 = 5;
 pub const T_SOA: u16 = 6;
 pub const T_MX: u16 = 15;
 pub const T_TXT: u16 = 16;
+pub const T_DS: u16 = 43;
 pub const T_IXFR: u16 = 251;
 pub const T_AXFR: u16 = 252;
 pub const T_MAILB: u16 = 253;
